@@ -237,6 +237,7 @@ PINS = {
     "merge_optional": None,
     "merge_map": None,
     "serialize": None,
+    "memo_check": None,
 }
 try:
     from . import c13_pins
@@ -359,6 +360,12 @@ def compute():
             j = src.index("{", mm.end())
             ser_txt += norm_text(src[j:_balanced(src, j)])
     pins["serialize"] = sha(ser_txt)
+    osrc = _strip(srcgen.read(F_O))
+    mm = re.search(r"fn from_stripped_bytes\(", osrc)
+    if not mm:
+        raise SrcgenError("MemoPlaintext::from_stripped_bytes not found")
+    j = osrc.index("{", mm.end())
+    pins["memo_check"] = sha(norm_text(osrc[j:_balanced(osrc, j)]) + str(srcgen.int_const(F_O, "MEMO_SIZE")))
 
     schema = {
         "S_global": gk,
@@ -406,54 +413,250 @@ def render(schema, shapes):
     return "\n".join(out) + "\n"
 
 
+
+# --------------------------------------------------------------------------------------------
+# Wire shapes of the v1 / v2 encodings (coq/Gen/C13Wire.v) from the Rust type declarations
+# --------------------------------------------------------------------------------------------
+
+def _module_src(rel, mod):
+    """Source text (comment-free) of file rel, or of `mod name { .. }` inside it (mod may be None)."""
+    src = _strip(srcgen.read(rel))
+    if mod is None:
+        return src
+    m = re.search(r"^\s*pub(?:\(crate\))?\s+mod\s+" + re.escape(mod) + r"\s*\{", src, flags=re.M)
+    if not m:
+        raise SrcgenError("module %s not found in %s" % (mod, rel))
+    st = m.end() - 1
+    return src[st + 1:_balanced(src, st) - 1]
+
+
+def _strip_attrs(body):
+    while True:
+        k = body.find("#[")
+        if k < 0:
+            return body
+        body = body[:k] + body[_balanced(body, k + 1, "[", "]"):]
+
+
+def _split_top(body, sep=","):
+    out, depth, cur = [], 0, ""
+    for ch in body:
+        if ch in "<([{":
+            depth += 1
+        elif ch in ">)]}":
+            depth -= 1
+        if ch == sep and depth == 0:
+            out.append(cur)
+            cur = ""
+        else:
+            cur += ch
+    if cur.strip():
+        out.append(cur)
+    return out
+
+
+def decl_struct(rel, mod, name):
+    """[(field, type)] of `struct name { .. }` declared directly in the module (not in a nested one)."""
+    src = _module_src(rel, mod)
+    # blank out nested modules so that their structs are not picked up
+    while True:
+        m = re.search(r"^\s*(?:pub(?:\(crate\))?\s+)?mod\s+[a-z_0-9]+\s*\{", src, flags=re.M)
+        if not m:
+            break
+        st = m.end() - 1
+        src = src[:m.start()] + src[_balanced(src, st):]
+    m = re.search(r"^\s*(?:pub(?:\(crate\))?\s+)?struct\s+" + re.escape(name) + r"\s*\{", src, flags=re.M)
+    if not m:
+        raise SrcgenError("struct %s not found in %s%s" % (name, rel, "::" + mod if mod else ""))
+    st = m.end() - 1
+    body = _strip_attrs(src[st + 1:_balanced(src, st) - 1])
+    out = []
+    for f in _split_top(body):
+        mm = re.match(r"\s*(?:pub(?:\([a-z]+\))?\s+)?([a-z_0-9]+)\s*:\s*(.+?)\s*$", f, flags=re.S)
+        if not mm:
+            raise SrcgenError("cannot read a field of %s: %r" % (name, f.strip()[:60]))
+        out.append((mm.group(1), re.sub(r"\s+", "", mm.group(2))))
+    return out
+
+
+def decl_enum(rel, mod, name):
+    src = _module_src(rel, mod)
+    m = re.search(r"^\s*(?:pub(?:\(crate\))?\s+)?enum\s+" + re.escape(name) + r"\s*\{", src, flags=re.M)
+    if not m:
+        raise SrcgenError("enum %s not found in %s" % (name, rel))
+    st = m.end() - 1
+    body = _strip_attrs(src[st + 1:_balanced(src, st) - 1])
+    out = []
+    for v in _split_top(body):
+        v = re.sub(r"\s+", "", v)
+        if not v:
+            continue
+        mm = re.fullmatch(r"([A-Za-z0-9_]+)(?:\((.*)\))?", v)
+        if not mm:
+            raise SrcgenError("cannot read a variant of %s: %r" % (name, v[:60]))
+        out.append((mm.group(1), mm.group(2)))
+    return out
+
+
+# where a type name used in a given context is declared: context -> {name: (file, module, kind)}
+_CTX = {
+    "common": (F_COMMON, None),
+    "transparent": (F_T, None),
+    "sapling": (F_S, None),
+    "sapling::v1": (F_S, "v1"),
+    "orchard": (F_O, None),
+    "orchard::v1": (F_O, "v1"),
+    "orchard::v2": (F_O, "v2"),
+}
+
+
+def _resolve(ctx, t):
+    """type path as written in context ctx -> (context of the declaration, name)."""
+    t = t.replace("crate::", "")
+    parts = t.split("::")
+    name = parts[-1]
+    path = parts[:-1]
+    if path == ["super"]:
+        return ctx.split("::")[0], name
+    if path == ["common"] or name == "Zip32Derivation":
+        return "common", name
+    if path:
+        c = "::".join(path)
+        if c not in _CTX:
+            raise SrcgenError("type path %s (in %s) is outside the modelled modules" % (t, ctx))
+        return c, name
+    return ctx, name
+
+
+def wshape(ctx, t, memo):
+    t = t.strip()
+    prim = {"u8": "WU8", "u16": "(WVar 16)", "u32": "(WVar 32)", "u64": "(WVar 64)", "u128": "(WVar 128)",
+            "i128": "(WZig 128)", "i64": "(WZig 64)", "bool": "WBool", "String": "(WSeq WU8)"}
+    if t in prim:
+        return prim[t]
+    m = re.fullmatch(r"\[(.+);([A-Za-z0-9_]+)\]", t)
+    if m:
+        n = m.group(2)
+        if not n.isdigit():
+            n = str(srcgen.int_const(_CTX[ctx][0], n))
+        return "(WArr %s %s)" % (n, wshape(ctx, m.group(1), memo))
+    m = re.fullmatch(r"Option<(.+)>", t)
+    if m:
+        return "(WOpt %s)" % wshape(ctx, m.group(1), memo)
+    m = re.fullmatch(r"Vec<(.+)>", t)
+    if m:
+        return "(WSeq %s)" % wshape(ctx, m.group(1), memo)
+    m = re.fullmatch(r"BTreeMap<(.+)>", t)
+    if m:
+        kv = _split_top(m.group(1))
+        if len(kv) != 2:
+            raise SrcgenError("BTreeMap with %d parameters" % len(kv))
+        return "(WSeq (WTup [%s; %s]))" % (wshape(ctx, kv[0], memo), wshape(ctx, kv[1], memo))
+    m = re.fullmatch(r"\((.+)\)", t)
+    if m:
+        return "(WTup [%s])" % "; ".join(wshape(ctx, x, memo) for x in _split_top(m.group(1)))
+    if not re.fullmatch(r"[A-Za-z0-9_:]+", t):
+        raise SrcgenError("type outside the supported fragment: %s (in %s)" % (t, ctx))
+    c, name = _resolve(ctx, t)
+    key = (c, name)
+    if key in memo:
+        return memo[key][0]
+    rel, mod = _CTX[c]
+    ident = "W_%s_%s" % (c.replace("::", "_"), name)
+    if name == "MemoPlaintext":
+        # newtype over Vec<u8> whose Deserialize validates (from_stripped_bytes): id 1 in Postcard.wcheck
+        body = "WCheck 1 (WSeq WU8)"
+    elif name in ("EncCiphertext", "SerializedNoteVersion"):
+        vs = decl_enum(rel, mod, name)
+        body = "WEnum [%s]" % "; ".join(("WTup []" if p is None else wshape(c, p, memo)) for _, p in vs)
+    else:
+        fs = decl_struct(rel, mod, name)
+        body = "WTup [%s]" % "; ".join(wshape(c, ty, memo) for _, ty in fs)
+    memo[key] = (ident, body, len(memo))
+    return ident
+
+
+def wire_gen():
+    lib = _strip(srcgen.read(F_LIB))
+    out = ["From Coq Require Import List NArith.", "From V.C13 Require Import Postcard.", "Import ListNotations.",
+           "Local Open Scope N_scope.", ""]
+    tops = {}
+    memo = {}
+    order = []
+    for ver in ("v1", "v2"):
+        fs = decl_struct(F_LIB, ver, "Pczt")
+        shapes = []
+        for f, ty in fs:
+            ty = ty.replace("crate::", "")
+            # types are written relative to the crate root inside lib.rs's modules
+            shapes.append(wshape("common" if ty.startswith("common::") else ty.split("::")[0] if "::" in ty and not ty.startswith("Option") else "common", ty, memo))
+        tops[ver] = (fs, shapes)
+    # emit definitions in dependency order (memo insertion order is post-order)
+    for (c, name), (ident, body, _k) in sorted(memo.items(), key=lambda kv: kv[1][2]):
+        out.append("Definition %s : wshape := %s." % (ident, body))
+    for ver in ("v1", "v2"):
+        fs, shapes = tops[ver]
+        out.append("(* %s::Pczt { %s } *)" % (ver, ", ".join(f for f, _ in fs)))
+        out.append("Definition W_%s : wshape := WTup [%s]." % (ver, "; ".join(shapes)))
+    return "\n".join(out) + "\n"
+
+
 class C13(Config):
     pid = "C13"
     proof_targets = ["C13/Properties.vo"]
     corr_targets = ["C13/Corr.vo", "C13/Wf.vo"]
     audit_dirs = ["Lib", "Gen", "C13"]
     header = ("From V.Lib Require Import Base Hex.\n"
-              "From V.C13 Require Import Model Spec Corr Wf.\n"
+              "From V.C13 Require Import Model Spec Postcard Corr Wf.\n"
               "From V.Gen Require Import C13Schema.\n"
               "Local Open Scope Z_scope.")
     bin = "c13"
     release_too = False
-    n_tags = 60
+    n_tags = 80
     shard_size = 60
     classes = {1: "C13-roundtrip-anchor"}
     rule = ("PCZTs built by zcash_primitives Builder::build_for_pczt / DeferredPcztBuilder + Creator for generated "
-            "transparent/Sapling/Orchard/Ironwood inputs and outputs in the v5 and v6 formats; 2-4 parties' copies made by "
-            "random Updater/Redactor/IoFinalizer/Signer/SpendFinalizer steps (every step is also a role case with pczt_txid "
-            "before/after), Creator templates and flag variants for vector extension, transparent prefix families; every "
-            "permutation and several groupings through Combiner; serialise/parse of the parties; mutated encodings")
+            "transparent/Sapling/Orchard/Ironwood inputs and outputs in the v5 and v6 formats (memos of 0/1/511/512 bytes); "
+            "2-4 parties' copies made by random Updater/Redactor/IoFinalizer/Signer/SpendFinalizer steps (every step is also a "
+            "role case with pczt_txid before/after), Creator templates (with and without fallback lock time) and flag variants "
+            "for vector extension, value_sum-tweaked copies, transparent prefix families; every permutation and several "
+            "groupings through Combiner; serialise/parse of the parties and of compacted copies; Pczt::into_effects against "
+            "the model's transaction; serde trees + bytes of v1::Pczt / v2::Pczt against the postcard model; mutated encodings")
     trusted_base = [
         "Coq 8.16.1 kernel, vm_compute (no native_compute)",
         "axioms: none",
-        "vlib/props/c13.py schema extractor (struct declarations, per-field merge rule recognition) and its pinned hashes "
-        "of the hand-modelled bundle-level / bitmap / combiner / encoding-selection source text",
+        "vlib/props/c13.py extractors: struct declarations and per-field merge rule recognition (Gen/C13Schema.v), wire "
+        "shapes from the Rust field types (Gen/C13Wire.v), pinned hashes of the hand-modelled bundle-level / bitmap / "
+        "combiner / encoding-selection / memo-validation source text",
         "harness/wallet/src/bin/c13.rs: generic parser of the public Debug rendering of Pczt, injective interning of opaque "
-        "leaves, catch_unwind wrappers; vlib case-file generator",
-        "hand transcription in coq/C13/Model.v of Global::merge's bitmap, the bsk/value_sum/length rules of the Sapling and "
-        "Orchard Bundle::merge, Combiner::combine, v1 representability and v2 elision",
+        "leaves (reserved ids for zero anchor, note versions, 0, u32::MAX), serde-tree printer, catch_unwind wrappers; "
+        "vlib case-file generator",
+        "hand transcription in coq/C13/Model.v and Postcard.v of Global::merge's bitmap, the bsk/value_sum/length rules of the "
+        "Sapling and Orchard Bundle::merge, Combiner::combine, v1 representability and v2 elision, extract_tx_data + "
+        "extract_effects (tx_recipe/tx_post), postcard 1.1 varint/zig-zag/option/seq/tuple/enum and the PCZT header",
     ]
     assumptions = [
-        "leaves are compared only for equality (PartialEq of byte arrays, integers, strings); the model abstracts them to atoms",
+        "leaves are compared only for equality (PartialEq of byte arrays, integers, strings); the logical model abstracts them to atoms",
         "txid equality on implementation results stands for equality of effects (BLAKE2b collision resistance)",
         "Redactor: only redactions of non-effecting fields and the self-validating compaction of resolvable fields are "
         "covered; replace_enc_ciphertext_with_memo_plaintext with a caller-chosen memo is a caller obligation",
+        "postcard model: UTF-8 validation of strings and the v2 required-field check are not modelled (the model accepts a "
+        "superset; checked on mutated encodings); a sequence length beyond the remaining input is rejected up front",
     ]
     partial_clauses = [
-        "generic laws (comm, assoc, idem, keeps, conflict, permutation, grouping) are proved for every lawful flat kind and "
-        "instantiated on the regenerated schema (lawful, flat for every key-universe size); the identification of the code's "
-        "Sapling/Orchard Bundle::merge (bsk / value_sum / length rules) with the lawful reference merge on copies of equal "
-        "shielded shape is NOT proved in Coq: it is checked by correspondence (run_case uses the hand model of the code, "
-        "prop_case the reference relation) — for Global and the transparent bundle it is proved",
-        "copies of different shielded shape are outside the order-independence theorem (refuted lemma: an IO-finalised "
-        "copy no longer accepts a shorter one)",
-        "byte-level postcard encoding is not modelled: version choice and the value read back are modelled on the abstract "
-        "v1/v2 conversions and checked against parse(serialize(p)) by correspondence; exact round trip is guarded by the "
-        "anchor-normalisation class (known finding C13-roundtrip-anchor)",
+        "order/grouping independence, idempotence, field keeping and conflict are theorems about the code's merge of whole "
+        "PCZTs (pczt_merge, including the hand-transcribed bsk/value_sum/length rules) on well-shaped copies of ONE shielded "
+        "shape (same_len); copies of different shielded shape are outside (refuted lemma: an IO-finalised copy no longer "
+        "accepts a shorter one); the bridge theorem covers the combine cases whose parties have one shielded shape",
+        "byte layer: postcard + header round trip and totality are proved on serde (wire) trees for the regenerated v1/v2 "
+        "shapes; the v1/v2 conversions (representability, elision, anchor normalisation) are modelled on logical trees; the "
+        "embedding of logical leaves into wire values is not composed in Coq (both halves are tied to the implementation by "
+        "correspondence: CSer and CBytes); exact logical round trip is guarded by the known finding C13-roundtrip-anchor",
+        "extraction: the model's transaction (tx_of) is proved to depend only on the effecting fields and agrees with "
+        "Pczt::into_effects on all generated PCZTs; where the code recomputes a redacted field (cv_net, cmx, memo plaintext) "
+        "or an input requires a lock time the model leaves the transaction undetermined; TransactionExtractor (binding "
+        "signatures, proof verification) is exercised only for fully signed transparent-only transactions",
         "Prover role and validity of signatures/proofs are external cryptography (not exercised: no proving keys in the quick budget)",
-        "TransactionExtractor: txid equality checked on implementation results for fully signed transparent-only transactions",
     ]
 
     @staticmethod
@@ -461,6 +664,7 @@ class C13(Config):
         schema, shapes, pins = compute()
         bad = [k for k, v in pins.items() if PINS.get(k) != v]
         srcgen.write_gen("C13Schema", render(schema, shapes))
+        srcgen.write_gen("C13Wire", wire_gen())
         if bad:
             raise SrcgenError("hand-modelled source text changed (re-derive coq/C13/Model.v, then update "
                               "vlib/props/c13_pins.py): %s" % ", ".join("%s=%s" % (k, pins[k]) for k in bad))
